@@ -155,6 +155,43 @@ def check(ctx):
                f"for a {k} vector na_value is {cv} and na_dtype gives kind {k2}, but is_na on that kind tests {cdet}: "
                f"the value stored as missing is not recognised as missing", clause="is_na flags exactly those positions")
     ctx.count("dtype kinds evaluated", len(KINDS), 9)
+    # the predicates the decision lists branch on are the NumPy kinds the table assumes
+    SPEC = {"is_boolean": "np.bool_", "is_bytes": "np.bytes_", "is_datetime": "np.datetime64", "is_float": "np.floating",
+            "is_integer": "np.integer", "is_number": "np.number", "is_object": "np.object_", "is_timedelta": "np.timedelta64",
+            "_is_string_fixed": "np.str_"}
+    from ..pattern import pmatch as _pmk
+    for name, kind in SPEC.items():
+        fnp = repo.fn(f"{VEC}.{name}")
+        rets = [n for n in body_nodes(fnp.node) if isinstance(n, ast.Return)]
+        ok = len(rets) == 1 and _pmk(f"np.issubdtype({fnp.params[0]}.dtype, {kind})", rets[0].value) is not None
+        ctx.ob("SIB-9", fnp, f"{name} == issubdtype(dtype, {kind})", rets[0] if rets else fnp.node, ok,
+               "predicate tests the NumPy kind the NA tables assume" if ok else
+               f"{name} no longer tests np.issubdtype(self.dtype, {kind}): the branches of is_na / na_dtype / na_value select other dtypes",
+               nontrivial=False, clause="the missing value of the inferred type")
+    fs = repo.fn(f"{VEC}.is_string")
+    rets = [n for n in body_nodes(fs.node) if isinstance(n, ast.Return)]
+    ok = len(rets) == 1 and _pmk(f"isinstance({fs.params[0]}.dtype, StringDType)", rets[0].value) is not None
+    ctx.ob("SIB-9", fs, "is_string == isinstance(dtype, StringDType)", rets[0] if rets else fs.node, ok,
+           "string vectors are those of the variable-width string dtype" if ok else "is_string no longer tests for StringDType", nontrivial=False)
+    nw = repo.fn(f"{VEC}.__new__")
+    from ..forms import value_cases as _vck
+    cs = _vck(nw, "return")
+    obj = nw.params[1]
+    arr = [leaf for _, leaf, f_ in cs if any(k == "T" and t == f"isinstance({obj}, np.ndarray)" for k, t in f_)]
+    gen = [leaf for _, leaf, f_ in cs if not any(k == "T" and t == f"isinstance({obj}, np.ndarray)" for k, t in f_)]
+    ok = len(arr) == 1 and len(gen) == 1 and _pmk(f"{nw.params[0]}._np_array({obj}, __).view({nw.params[0]})", arr[0]) is not None \
+        and _pmk(f"{nw.params[0]}._std_to_np({obj}, __).view({nw.params[0]})", gen[0]) is not None
+    ctx.ob("SIB-pred", nw, "Vector(...): ndarray -> _np_array; anything else -> _std_to_np (missing values substituted)", nw.node, ok,
+           "Python sequences always pass the NA substitution, arrays are taken as they are" if ok else
+           "Vector.__new__ no longer routes non-array input through _std_to_np (None / NaN would not be mapped to the missing value)",
+           clause="Building a Vector from Python values maps None and NaN to the missing value")
+    mi = repo.fn(f"{VEC}._map_input_dtype")
+    cs = _vck(mi, "return")
+    dp = mi.params[1]
+    ok = any(norm(leaf) == "dtypes.string" and any(k == "T" and t == f"{dp} is str" for k, t in f_) for _, leaf, f_ in cs) and \
+        any(norm(leaf) == dp for _, leaf, f_ in cs)
+    ctx.ob("SIB-pred", mi, "dtype str -> dtypes.string, other dtypes unchanged", mi.node, ok,
+           "str means the string dtype with '' as missing value" if ok else "_map_input_dtype changed", nontrivial=False)
     # ------------------------------------------------------------- SIB-pred
     std = repo.fn(f"{VEC}._std_to_np")
     ut = repo.fn("dataiter.util.unique_types")
